@@ -293,7 +293,8 @@ def write_graph(wd, tags, name="g.gfa"):
     with open(p, "w") as fh:
         for nid, (bo, no) in tags.items():
             sn, sr = NODES[nid]
-            fh.write("S\t%s\t*\tLN:i:500\tSN:Z:%s\tSO:i:0\tSR:i:%d\tBO:i:%d\tNO:i:%d\n" % (nid, sn, sr, bo, no))
+            # an annotation with blanks (legal in a Z value) sits between the rGFA tags and the BO/NO tags
+            fh.write("S\t%s\t*\tLN:i:500\tSN:Z:%s\tSO:i:0\tSR:i:%d\tDS:Z:primary assembly, patch 2\tBO:i:%d\tNO:i:%d\n" % (nid, sn, sr, bo, no))
     return p
 
 
